@@ -262,13 +262,13 @@ func init() {
 			}
 			k := string(a[1])
 			e := n.M[k]
+			if sign < 0 && delta == math.MinInt64 {
+				return errOut(n) // rejected before the key is looked at
+			}
 			if e != nil && e.T != "string" {
 				return wrongType(n)
 			}
 			if sign < 0 {
-				if delta == math.MinInt64 {
-					return errOut(n)
-				}
 				delta = -delta
 			}
 			cur := int64(0)
@@ -314,7 +314,8 @@ func init() {
 		e := n.M[k]
 		inc, ok := parseFloat(a[2])
 		if e != nil && e.T != "string" {
-			if !ok {
+			if !ok || math.IsInf(inc, 0) {
+				// argument check and type check may come in either order
 				return one(MErr(), n)
 			}
 			return wrongType(n)
@@ -420,15 +421,16 @@ func cmdSet(s *KS, a [][]byte) []Outcome {
 		// an error before Redis 7.0
 		alts = append(alts, Outcome{Reply: MErr(), Next: begin(s)})
 	}
+	if old != nil && old.T != "string" {
+		// the reference overwrites / answers nil; the property's general sentence says WRONGTYPE: both accepted
+		alts = append(alts, Outcome{Reply: MWrongType(), Next: begin(s)})
+	}
 	if (nx && old != nil) || (xx && old == nil) {
 		r := MNil()
 		if get {
 			r = getReply
 		}
 		return append([]Outcome{{Reply: r, Next: n}}, alts...)
-	}
-	if old != nil && old.T != "string" {
-		alts = append(alts, Outcome{Reply: MWrongType(), Next: begin(s)})
 	}
 	n.setStr(k, a[2], keepttl)
 	if deadline != 0 {
